@@ -5,6 +5,7 @@
 package lexer
 
 import (
+	"reflect"
 	"strings"
 
 	"github.com/xjslang/xjs/token"
@@ -29,6 +30,19 @@ func forall(lo, hi int, f func(int) bool) bool {
 }
 func built(b strings.Builder) string { return b.String() }
 func fresh(x any) bool               { return true }
+func eq[T any](a, b T) bool          { return reflect.DeepEqual(a, b) }
+func has[K comparable, V any](m map[K]V, k K) bool {
+	_, ok := m[k]
+	return ok
+}
+func forallKeys[K comparable, V any](m map[K]V, f func(K) bool) bool {
+	for k := range m {
+		if !f(k) {
+			return false
+		}
+	}
+	return true
+}
 
 // ---- positions (property C10: "start is the line/column of its first byte") ----
 
@@ -476,3 +490,41 @@ func isQuote(c byte) bool { return c == '"' || c == '\'' || c == '`' }
 //@   props C10 C14 C04
 //@   ensures [fresh] result != nil && lexInv(result) && result.position == 0 && result.input == input
 //@   ensures [fresh.object@C14] fresh(result)
+
+// ---- lexer builder (C05, C04, C14) ----
+
+// lbInv: ids are allocated consecutively from DYNAMIC_TOKENS_START, one per name.
+func lbInv(lb *Builder) bool {
+	return lb.dynamicTokens != nil && lb.nextTokenID >= token.DYNAMIC_TOKENS_START &&
+		forallKeys(lb.dynamicTokens, func(k string) bool {
+			return token.DYNAMIC_TOKENS_START <= lb.dynamicTokens[k] && lb.dynamicTokens[k] < lb.nextTokenID
+		}) &&
+		forallKeys(lb.dynamicTokens, func(k1 string) bool {
+			return forallKeys(lb.dynamicTokens, func(k2 string) bool {
+				return implies(lb.dynamicTokens[k1] == lb.dynamicTokens[k2], k1 == k2)
+			})
+		})
+}
+
+//@ func NewBuilder
+//@   props C05 C14
+//@   ensures [fresh@C14] result != nil && fresh(result) && fresh(result.dynamicTokens)
+//@   ensures [inv@C05] lbInv(result) && result.nextTokenID == token.DYNAMIC_TOKENS_START && len(result.interceptors) == 0
+
+//@ func (lb *Builder) RegisterTokenType
+//@   props C05 C14
+//@   requires [inv] lbInv(lb)
+//@   modifies lb.nextTokenID, lb.dynamicTokens[*]
+//@   ensures [inv@C05] lbInv(lb)
+//@   ensures [stable@C05] implies(old(has(lb.dynamicTokens, name)), result == old(lb.dynamicTokens[name]) && lb.nextTokenID == old(lb.nextTokenID))
+//@   ensures [new@C05] implies(!old(has(lb.dynamicTokens, name)), result == old(lb.nextTokenID) && lb.nextTokenID == old(lb.nextTokenID)+1)
+//@   ensures [others@C05] forallKeys(old(lb.dynamicTokens), func(k string) bool { return has(lb.dynamicTokens, k) && lb.dynamicTokens[k] == old(lb.dynamicTokens)[k] })
+//@   ensures [no-extra@C05] forallKeys(lb.dynamicTokens, func(k string) bool { return k == name || old(has(lb.dynamicTokens, k)) })
+//@   ensures [recorded@C05] has(lb.dynamicTokens, name) && lb.dynamicTokens[name] == result
+//@   ensures [dynamic@C05] result >= token.DYNAMIC_TOKENS_START && result > token.NULL
+
+//@ func (lb *Builder) UseTokenInterceptor
+//@   props C04 C14
+//@   modifies lb.interceptors
+//@   ensures [append@C04] len(lb.interceptors) == len(old(lb.interceptors))+1 && forall(0, len(old(lb.interceptors)), func(i int) bool { return eq(lb.interceptors[i], old(lb.interceptors)[i]) }) && eq(lb.interceptors[len(old(lb.interceptors))], interceptor)
+//@   ensures [self] result == lb
